@@ -34,6 +34,7 @@ type SpecEnv struct {
 	inOld      bool
 	rangeOf    func(ord int) (string, bool) // ghost key of the map range driving loop ord (0: the loop being annotated)
 	tparams map[string]types.Type // type parameters of the function under contract (usable as quantifier types)
+	loopPre *State // loop invariants: the state in which the loop being annotated was entered (atentry(e))
 }
 
 func (env *SpecEnv) child() *SpecEnv {
@@ -993,6 +994,20 @@ func (env *SpecEnv) call(e *Expr) (SpecVal, error) {
 		sub := *env
 		sub.cur = env.old
 		sub.inOld = true
+		v, err := sub.Eval(args[0])
+		env.assumes = append(env.assumes, sub.assumes...)
+		return v, err
+	case "atentry":
+		// atentry(e): e (ghost variables, memory, values defined before the loop) as it was when
+		// the loop being annotated was entered - for a nested loop: entered this time
+		if len(args) != 1 {
+			return SpecVal{}, fmt.Errorf("atentry takes one argument")
+		}
+		if env.loopPre == nil {
+			return SpecVal{}, fmt.Errorf("atentry(e) is only meaningful in a loop invariant")
+		}
+		sub := *env
+		sub.cur = env.loopPre
 		v, err := sub.Eval(args[0])
 		env.assumes = append(env.assumes, sub.assumes...)
 		return v, err
